@@ -147,3 +147,34 @@ Proof.
   destruct (Gray.int2bin (value - i_min t) (i_nbits t)); cbn [get finish]; [|reflexivity].
   now rewrite tie_bin2gray.
 Qed.
+
+(* ---- C17 stated about the GENERATED code: with every function of the path (Integer.decode/encode, bin2int,
+   gray2bin, bin2gray, int2bin) produced from the source text, every bit string of the variable's length decodes
+   into [min,max], and encode-then-decode is the identity on [min,max].  [fuel] bounds the two while loops of
+   int2bin (any fuel at least the bit length of the offset and the variable's bit count). ---- *)
+From PV Require Import Props.C17.
+
+Theorem tie_c17_generated_decode_in_range : forall mn mx t bits, integer_init mn mx = Some t ->
+  length bits = i_nbits t ->
+  exists v, Core.Integer_decode Core.bin2int Core.gray2bin (i_min t) (i_max t) bits = Some v /\ mn <= v <= mx.
+Proof.
+  intros mn mx t bits Ht Hl. rewrite tie_integer_decode_generated.
+  exact (c17_decode_in_range mn mx t bits Ht Hl).
+Qed.
+
+Theorem tie_c17_generated_decode_encode : forall mn mx t v fuel, integer_init mn mx = Some t -> mn <= v <= mx ->
+  (int2bin_fuel (v - i_min t) <= fuel)%nat -> (i_nbits t <= fuel)%nat ->
+  exists bits,
+    Core.Integer_encode Core.bin2gray (Core.int2bin fuel) (i_min t) (Z.of_nat (i_nbits t)) v = Some bits /\
+    length bits = i_nbits t /\
+    Core.Integer_decode Core.bin2int Core.gray2bin (i_min t) (i_max t) bits = Some v.
+Proof.
+  intros mn mx t v fuel Ht Hv Hf1 Hf2.
+  destruct (c17_nbits_minimal mn mx t Ht) as [Hmin _].
+  rewrite tie_integer_encode_generated; [|rewrite Hmin; lia|exact Hf1|exact Hf2].
+  destruct (c17_decode_encode mn mx t v Ht Hv) as [bits [He [Hl Hd]]].
+  exists bits. rewrite tie_integer_decode_generated. repeat split; assumption.
+Qed.
+
+Print Assumptions tie_c17_generated_decode_in_range.
+Print Assumptions tie_c17_generated_decode_encode.
